@@ -829,6 +829,18 @@ class Tr:
             return '(EOkOr %s %s)' % (self.expr(recv, bound), self.expr(args[0][2], bound))
         if name == 'ok_or' and len(args) == 1:
             return '(EOkOr %s %s)' % (self.expr(recv, bound), self.expr(args[0], bound))
+        # `self.helper()` where helper is a method of the same impl taking only `&self`: inlined (its `self` is ours)
+        if recv[0] == 'path' and recv[1] == ['self'] and not args and self.spec.get('impl') and self.depth <= 6:
+            callee = None
+            for f in self.files:
+                try: callee = f.find_fn(name, self.spec['impl'])
+                except PureError: callee = None
+                if callee is not None: break
+            if callee is not None and all(p[0] == 'self' for p in callee['params']):
+                sub = Tr(self.w, dict(self.spec, skip_lets=[], effects=[], drop_iflet=[]), [callee['file']] + [f for f in self.files if f is not callee['file']], self.depth + 1)
+                sub.fresh = self.fresh; sub.opaque = self.opaque; sub.opaque_used = self.opaque_used
+                body = Parser(callee['file'].toks[callee['body'][0]:callee['body'][1]], sub.spec).block_body()
+                return '(EScope %s)' % sub.stmts(sub.items(body), None, set())
         raise PureError('method call %s is outside the fragment and not declared opaque' % unparse(e))
 
     # ---- statements with a continuation
